@@ -337,7 +337,7 @@ class Interp:
             return TOP
         if k == 'global':
             f = self.lookup(o.v)
-            if f is not None or o.v in fn.module.declares:
+            if f is not None or o.v in fn.module.declares or o.v in fn.module.functions:
                 return FnPtr(o.v)
             return Ptr('@' + o.v, 0)
         if k == 'zero':
